@@ -17,10 +17,12 @@ limitations under the License.
 package websockets
 
 import (
+	"bytes"
 	"encoding/base64"
 	"encoding/json"
 	"errors"
 	"fmt"
+	"io"
 	"log"
 	"net/http"
 	"time"
@@ -274,8 +276,18 @@ func injectWebsocketMessage(msg *message, injectionPath []string, injectionValue
 		return msg, nil
 	}
 	// Deserialize the websocket message into a JSON object.
+	//
+	// Numbers are kept as json.Number: decoding them into float64 would change the
+	// value of integers beyond 2^53 when the message is reserialized.
 	var origJSONComponent map[string]interface{}
-	err := json.Unmarshal(msg.Data, &origJSONComponent)
+	decoder := json.NewDecoder(bytes.NewReader(msg.Data))
+	decoder.UseNumber()
+	err := decoder.Decode(&origJSONComponent)
+	if err == nil {
+		if _, tokenErr := decoder.Token(); tokenErr != io.EOF {
+			err = errors.New("unexpected data after the top-level value")
+		}
+	}
 	if err != nil {
 		return nil, fmt.Errorf("failed to unmarshal as json message: %v", err)
 	}
